@@ -126,7 +126,7 @@ struct Cell {
 	void remove(int id) {
 		bool expect = aliveL[id];
 		bool got = d->removeListener(KeyOps<K>::make(keyOf[id]), handleOf[id]);
-		ctx.log(fmt("removeListener(L%d) -> %d", id, (int)got));
+		ctx.log(fmt("removeListener(L%d) -> %d", id, (int)got)); ctx.tagStep(got ? "+r1" : "+r0");
 		if(expect) { auto & o = order[keyOf[id]]; o.erase(std::find(o.begin(), o.end(), id)); aliveL[id] = 0; }
 		if(got != expect) ctx.fail("remove-result", fmt("removeListener(L%d) returned %d, expected %d", id, (int)got, (int)expect));
 	}
